@@ -430,3 +430,96 @@ class Seams(object):
 
 
 SEAMS = Seams()
+
+
+# -------------------------------------------------------------------------------------------
+# RealFS: the same interface on a real temporary directory (self-test of the stub: fault-free
+# runs must produce the same event digests on SimFS and on the real file system)
+
+class _RealFiles(object):
+    """dict-like view of the files of a directory tree (names relative to the root)."""
+
+    def __init__(self, root):
+        self.root = root
+
+    def _p(self, name):
+        return os.path.join(self.root, name)
+
+    def get(self, name, default=None):
+        try:
+            with open(self._p(name), 'rb') as f:
+                return f.read()
+        except (FileNotFoundError, IsADirectoryError):
+            return default
+
+    def __getitem__(self, name):
+        v = self.get(name)
+        if v is None:
+            raise KeyError(name)
+        return v
+
+    def __contains__(self, name):
+        return os.path.isfile(self._p(name))
+
+    def __setitem__(self, name, data):
+        os.makedirs(os.path.dirname(self._p(name)) or self.root, exist_ok=True)
+        with open(self._p(name), 'wb') as f:
+            f.write(data)
+
+    def pop(self, name, default=None):
+        v = self.get(name, default)
+        try:
+            os.remove(self._p(name))
+        except FileNotFoundError:
+            pass
+        return v
+
+    def __delitem__(self, name):
+        os.remove(self._p(name))
+
+    def _all(self):
+        out = []
+        for d, _, fs in os.walk(self.root):
+            for f in fs:
+                out.append(os.path.relpath(os.path.join(d, f), self.root))
+        return sorted(out)
+
+    def __iter__(self):
+        return iter(self._all())
+
+    def items(self):
+        return [(n, self.get(n)) for n in self._all()]
+
+    def keys(self):
+        return self._all()
+
+
+class RealFS(SimFS):
+    """Real files under a temporary directory; no faults, no buffering model, no step budget."""
+
+    def __init__(self, root):
+        SimFS.__init__(self, bufsize=None)
+        self.files = _RealFiles(root)
+        self.root = root
+        import builtins
+        self._open = builtins.open
+
+    def open(self, filename, mode='r', *args, **kwargs):
+        name = self._name(filename)
+        self.step += 1
+        path = os.path.join(self.root, name)
+        if 'w' in mode:
+            os.makedirs(os.path.dirname(path) or self.root, exist_ok=True)
+        return self._open(path, mode, *args, **kwargs)
+
+    def crash(self):
+        self.crashed = True
+
+    def arm(self, kind, index, frac=0.5):
+        raise HarnessError('RealFS runs are fault free')
+
+    def replace(self, name, data):
+        tmp = os.path.join(self.root, name + '.tmp-replace')
+        with self._open(tmp, 'wb') as f:
+            f.write(data)
+        os.replace(tmp, os.path.join(self.root, name))
